@@ -286,6 +286,18 @@ func oracleForward(d caseDesc, o observation) []failure {
 		if len(o.Fwds) != 0 {
 			fs = append(fs, failure{"forward:forwarded-after-write-failure", fmt.Sprintf("a login was forwarded for %q although its event could not be written", line)})
 		}
+	case d.Mode.raceyHandoff():
+		// the event is written, the context is cancelled and the correlator receives: "unless its context is cancelled,
+		// forwards exactly one login" leaves it open whether the login is forwarded; never more than one, and (checked
+		// above) only the written event
+		if o.Ret != "ok" || len(em) != 1 || len(o.Events) != 1 || !em[0].OK || len(o.Fwds) > 1 {
+			fs = append(fs, failure{"forward:cancelled-receiver-ready", fmt.Sprintf("accepted authentication %q with a cancelled context and a receiving correlator: ret=%s events=%d forwards=%d (expected ok / 1 / at most 1)", line, o.Ret, len(o.Events), len(o.Fwds))})
+		}
+		for _, f := range o.Fwds {
+			if f.PID != pid || f.Cred != d.Gen.Cred {
+				fs = append(fs, failure{"forward:pid", fmt.Sprintf("forwarded login for %q has pid %d and credential user id %q, the line says %d and %q", line, f.PID, f.Cred, pid, d.Gen.Cred)})
+			}
+		}
 	case !d.Mode.Ready:
 		if o.Ret != "ok" || len(em) != 1 || len(o.Events) != 1 || len(o.Fwds) != 0 {
 			fs = append(fs, failure{"forward:cancelled", fmt.Sprintf("cancelled hand-off for %q: ret=%s events=%d forwards=%d (expected ok/1/0)", line, o.Ret, len(o.Events), len(o.Fwds))})
